@@ -640,8 +640,12 @@ func (i *interpreter) violationAt(pos string, stack []string, kind, label string
 	ps := i.ps
 	v := &Violation{Harness: ps.harness, Kind: kind, Label: label, Pos: pos, Trace: decString(ps.trace), Stack: stack}
 	ps.queries++
-	if ps.sol.Check() == smt.Sat {
-		v.Model, v.Order, v.Kinds = i.model()
+	if ps.sol.Check() != smt.Sat {
+		// not shown feasible: no counterexample
+		ps.inconclusive = true
+		ps.note("inconclusive: feasibility of a panicking path is unknown: " + label)
+		return
 	}
+	v.Model, v.Order, v.Kinds = i.model()
 	ps.viols = append(ps.viols, v)
 }
